@@ -28,6 +28,7 @@ COUNTS = {
     "srv": (500, 12000),
     "pair": (800, 40000),
     "conc": (300, 6000),
+    "cli": (250, 5000),
 }
 
 def nontrivial_rule(suite):
@@ -39,6 +40,7 @@ def nontrivial_rule(suite):
         "wrecv": "distinct scripts in which the worker performed at least one receive and one send",
         "wrecv-long": "distinct scripts (each > 65 000 blocks)",
         "win": "distinct operation sequences with at least two operations",
+        "cli": "distinct client invocations that ended without a refusal",
         "conc": "distinct (client set, interleaving) pairs with at least two clients that both start",
         "pair": "distinct (configuration, file, fault schedule) triples with at least one fault",
         "srv": "distinct request histories in which the server sent at least one reply",
@@ -63,6 +65,8 @@ def is_nontrivial(suite, case, impl):
         return not case.endswith(" - -")
     if suite == "conc":
         return impl.count("=got:") + impl.count("=acked") >= 2
+    if suite == "cli":
+        return impl.startswith("res=ok")
     return True
 
 W_ASSUME = ["virtual clock hook (cfg rs_tftpd_verif) supplies time inside Worker::send_file; receive results are scripted",
@@ -88,6 +92,8 @@ PROPS = {
             "assumptions": ["kernel threads, mpsc channels and connected UDP sockets behave as the rules of Model/System.v say (sampled by real schedules, not proved)"]},
     "C13": {"suites": ["wrecv", "srv"], "monitor": True, "title": "cleanup of failed uploads",
             "assumptions": W_ASSUME + ["POSIX unlink/truncate semantics as modelled; write errors (disk full) are modelled, not induced"]},
+    "C14": {"suites": ["cli", "pair"], "monitor": True, "title": "bundled client and server interoperate",
+            "assumptions": ["loopback delivers the windows used (window x block size <= 128 KiB); IPv4 loopback, in-process Client::run and Server"]},
     "C15": {"suites": ["wsend-long", "wrecv-long"], "monitor": True, "title": "block-number wrap-around", "assumptions": W_ASSUME},
     "C16": {"suites": ["wsend", "wrecv", "cfg", "srv"], "monitor": True, "title": "duplicate-packets mode", "assumptions": W_ASSUME},
     "C17": {"suites": ["cfg"], "monitor": True, "title": "command-line configuration",
